@@ -112,12 +112,12 @@ MANIFEST_TEXT = {
     "C08": {"technique": "model-based property testing: rapid-generated RequestVote/term sequences with crashes at storage writes against voter constraints on one real node, plus the same constraints over generated cluster schedules",
             "level_text": "Inputs part: a seeded voter (or non-voter) receives generated RequestVote / AppendEntries / InstallSnapshot headers with terms around its own, time advances around the election timeout, crashes immediately before/after term/vote and log writes, graceful stops and restarts over the crash image; scenario templates make competing requests in one term likely. Oracle (across incarnations): terms never decrease in replies, Status and recovered state; at most one candidate per term receives a real vote (persisted votes and granted replies); grants respect the up-to-date restriction; a grant is preceded by the write of that vote; a prevote changes neither Status().Term nor the persisted (term, vote). Schedules part: the same constraints per node in the election-centred cluster campaigns of C02.",
             "level_note": "Trusted: the constraint model B2 (it does not predict whether a request is ignored for stickiness, only constrains what is granted), the crash-image mechanism, the recorder's ordering."},
-    "C01": simtext("Randomised, pattern-biased exploration of message orders, losses, duplicates, late replies, partitions, crashes (arbitrary instants and storage boundaries) and restarts on real nodes in virtual time; every application and every reported commit index is checked against a global index->(term,bytes) table after every step. Finds divergence when a generated schedule produces it; says nothing about schedules not generated."),
+    "C01": simtext("Randomised, pattern-biased exploration of message orders, losses, duplicates, late replies, partitions, crashes (arbitrary instants, storage boundaries and inside log appends) and restarts on real nodes in virtual time, with snapshots (armed and by threshold) so that lagging and diverged nodes are also repaired through InstallSnapshot; every application and every reported commit index is checked against a global index->(term,bytes) table after every step. Finds divergence when a generated schedule produces it; says nothing about schedules not generated."),
     "C02": simtext("Same simulator with election-centred patterns (scheduler-owned delivery of every vote message, duelling candidates, flaky links, crashes at term/vote writes); per-term uniqueness of leaders is checked on Status() at every quiescence point and on every AppendEntries/InstallSnapshot request sent."),
     "C03": simtext("Concurrent generated clients against the simulator; the invoke/return history is checked against the authoritative applied order (bytes, position, result, at-most-once, real-time order). Exploration of histories, not a proof of linearizability for all histories."),
     "C04": simtext("Schedules with kills immediately before/after generated storage operations, all-node crashes and majority-only restarts; at every first application and acknowledgement each voter's on-disk log (crash image for dead nodes) is read back through the real constructors and a strict majority must hold the entry; recovered logs must equal what was stored."),
     "C05": simtext("Schedules with unbounded message delay built around a deposed-but-unaware leader (hold-partitions, old replies released first, leader left with non-voters, reads at freshly elected leaders after whole-cluster restarts, slow state machines) with concurrent writers and linearizable readers; a successful read must reflect every write acknowledged before its invocation (recorder order) and reads must not go backwards."),
-    "C16": simtext("Steady state first (leader L, everybody in its term, drained network = T0), then only nodes outside a drawn majority of L - a strict minority of voters, the non-voter, a voter removed through RemoveServer that keeps running - misbehave: symmetric and one-directional isolation (lost or held messages) for 0-20 election timeouts, rejoin at any instant, crash/stop/restart, late and duplicated messages, across randomised election timers; from T0 to the end L must report leader state in the same term and every majority node that term. Histories in which a minority node already carried a higher term before T0 are outside the property's precondition and are not generated."),
+    "C16": simtext("Steady state first (leader L, everybody in its term, drained network = T0), (optionally after up to two earlier leader changes), then only nodes outside a drawn majority of L - a strict minority of voters, the non-voter, a voter removed through RemoveServer that keeps running - misbehave: symmetric and one-directional isolation (lost or held messages) for 0-20 election timeouts, rejoin at any instant, crash/stop/restart, late and duplicated messages, across randomised election timers, while links inside the majority have hiccups shorter than half an election timeout (prompt contact by the library's own rule); from T0 to the end L must report leader state in the same term and every majority node that term. Histories in which a minority node already carried a higher term before T0 are outside the property's precondition and are not generated."),
     "C18": simtext("Raw public-API call sequences (lifecycle calls on the same instance in any order, Bootstrap variants, NewRaft with invalid options/addresses, submissions of every operation type incl. an invalid one with nil/empty/1 MiB payloads and zero/negative/large timeouts, membership requests with existing/unknown/self/empty ids, Status/Configuration and rendering of every reachable state) interleaved with cluster activity so that calls hit every node state; panics are recovered per call, process death (goroutine panic, logger.Fatal) is seen by the driver through the shard's exit and the action journal, calls and futures are timed in virtual time against their bounds, Await must be idempotent, committed membership changes must resolve their futures, and a Stop() that does not return is reported as a hang."),
     "C17": simtext("Bounded-delay network (each message delivered within a drawn D or lost; LD + D < ET), perfect virtual clocks; lease-based reads at any node at any instant under partitions and leader changes; staleness oracle of C05 plus the necessary condition that a voting member answered the serving node within the preceding lease duration."),
     "C09": simtext("Membership schedules from 1-4 voters: add (non-voter/voter), promote, remove (including the leader) submitted to any node, back-to-back and around faults, new nodes started empty, partitions, crashes, restarts; C01/C02/C07 oracles stay on (configuration entries compared by decoded content) and three membership oracles are added: every leader was elected by itself plus granted votes of voters forming a strict majority of a configuration it reported, every first application/acknowledgement is on disk at a strict voter majority of a configuration in use, a successful membership future reports a committed configuration that contains the change."),
@@ -125,8 +125,8 @@ MANIFEST_TEXT = {
     "C11": {"technique": "model-based property testing: rapid-generated InstallSnapshot chunk sequences with AppendEntries/RequestVote probes against a full-log reference twin on one real node, plus monitors over generated cluster schedules",
             "level_text": "Inputs part: a seeded follower (C06 world), two sender snapshots with drawn labels, sizes and chunking, up to 8 requests over their chunks in any order with duplicates and lower/equal/higher terms, interleaved with AppendEntries and RequestVote probes; applied/commit index must not decrease, committed entries beyond the label must survive, every snapshot file that becomes visible must equal a sender snapshot exactly, and probes at or above the boundary must be answered like a reference-model twin that holds the full log. Schedules part: the same monitors in snapshot-heavy cluster campaigns with leader changes during transfers.",
             "level_note": "Trusted: the world generator, the twin model (below the boundary only 'rejected, or accepted in agreement with the sender' is required), the storage wrappers' byte tee. Chunks are always genuine (offset, bytes) pairs of a sender file."},
-    "C14": simtext("Snapshot-enabled cluster schedules in which generated nodes are killed immediately before or after the k-th storage operation from now (every wrapped operation of log, term/vote and snapshot storage is a candidate; evidence lists the operations and callers actually hit) and restarted over the directory image of that instant; NewRaft/Start must succeed, the test binary must survive (FATAL/panic are process deaths seen by the driver), the C01/C02/C06/C07 monitors must stay green and restarted nodes must reach the leader's applied sequence in the fault-free suffix."),
-    "C15": simtext("Bounded liveness in virtual time: after a generated fault prefix everything is healed and restarted; within 40 election timeouts (extended once by 160 before a miss is reported) exactly one leader, agreeing voters, an acknowledged fresh write, no pending configuration entry and identical applied sequences on all running members are required; a miss is reported with the leader-to-member stall cycle. Not a proof of 'eventually'."),
+    "C14": simtext("Snapshot-enabled cluster schedules in which generated nodes are killed immediately before or after the k-th storage operation from now - or, for a log append, inside it (torn tail; such nodes are restarted twice with appends in between) - (every wrapped operation of log, term/vote and snapshot storage is a candidate; evidence lists the operations and callers actually hit) and restarted over the directory image of that instant; NewRaft/Start must succeed, the test binary must survive (FATAL/panic are process deaths seen by the driver), the C01/C02/C06/C07 monitors must stay green and restarted nodes must reach the leader's applied sequence in the fault-free suffix."),
+    "C15": simtext("Bounded liveness in virtual time: after a generated fault prefix everything is healed and the stopped nodes are restarted, except a drawn 0-2 of the most recently stopped ones as far as every configuration in use keeps a running majority; within 40 election timeouts (extended once by 160 before a miss is reported) exactly one leader, agreeing voters, an acknowledged fresh write, no pending configuration entry and identical applied sequences on all running members are required; a miss is reported with the leader-to-member stall cycle. Not a proof of 'eventually'."),
     "C07": simtext("Schedules biased to elections between differing logs; at the first sign of leadership of each (node, term) the node's stored log is compared with the set of entries ever observed committed or applied; truncations of committed entries are flagged at any time."),
     "C13": {
         "test": "(TestC13|TestC13Syscall)", "corpus_test": "TestCorpusC13", "level": "fault_enumeration",
